@@ -12,7 +12,7 @@ RULE = ("image descriptions DESC built from text, escapes, named/numeric referen
         "attribute equals the tag-stripped text of the paragraph rendering (nested images contribute their own alt). "
         "Non-trivial = DESC contains an escape, reference, break or nested construct; distinct = distinct DESC.")
 ATOMS = ["a", "b c", "é", "\\*", "\\\\", "\\[", "\\]", "&amp;", "&lt;", "&#65;", "&#x263A;", "&quot;", "&#0;", "*e*", "**s**", "_u_", "`c`", "`` `x` ``", "~~d~~", "[l](/u)", "[l2](/u 't')",
-         "![i](/v)", "![*j*](/w)", "2 * 3", "snake_case_name", "a*b", "**", "_", "~", "<http://x.y>", "!", "x &amp; y", "&nbsp;", "\\&amp;", "&copy;"]
+         "![i](/v)", "![*j*](/w)", "2 * 3", "snake_case_name", "a*b", "**", "_", "~", "<http://x.y>", "!", "x &amp; y", "&nbsp;", "\\&amp;", "&copy;", "a\0b", "\0", "\0\0 z"]
 BREAKS = ["\n", "  \n", "\\\n", "\\\n\\\n", "   \n", "\\\n  \n"]
 
 
@@ -38,7 +38,7 @@ def deep(n):
 def cases(rng, tier, Case):
     res = []
     n = 900 if tier == "quick" else 40000
-    descs = ["a \\* &amp; b\nc", "2 * 3 = 6", "snake_case", "a\\\n\\\nb", "before " + deep(40) + " after", "x ![y ![z](1)](2) w", "*a **b** c*", "`a`*b*", "~~[]~~~~"]
+    descs = ["nul \0 in alt", "a \\* &amp; b\nc", "2 * 3 = 6", "snake_case", "a\\\n\\\nb", "before " + deep(40) + " after", "x ![y ![z](1)](2) w", "*a **b** c*", "`a`*b*", "~~[]~~~~"]
     if tier != "quick":
         descs += ["before " + deep(300) + " after", "*a " * 200 + "b" + " a*" * 200]
     else:
